@@ -24,6 +24,12 @@ REVIEWED = {
     ("transform.lower_to_index_lambda._get_reshaped_indices",
      "old_ax_len_product != new_ax_len_product#2"): _RESHAPE,
 }
+# matched on alpha-normalised text (local renames do not matter); one entry
+# exempts one comparison
+from pta.pat import alpha as _alpha
+_REVIEWED_N: dict = {}
+for (_q, _t), _w in REVIEWED.items():
+    _REVIEWED_N.setdefault((_q, _alpha(_t.split("#")[0])), []).append(_w)
 
 
 class ShapeTyping:
@@ -139,6 +145,8 @@ def r_route(c):
     st = ShapeTyping(m)
     n_cmp = 0
     n_funcs = 0
+    from collections import Counter
+    used_rev = Counter()
 
     def visit(mi, fd, inherited):
         nonlocal n_cmp, n_funcs
@@ -169,10 +177,10 @@ def r_route(c):
                          "compared with a literal (structural comparison is exact)")
                 elif _int_proven(n, [ast.unparse(l), ast.unparse(r)]):
                     c.ok("R16-ROUTE", qn, inst, where, "both operands proven integers")
-                elif (qn, inst) in REVIEWED or (qn, inst + "#2") in REVIEWED and any(
-                        o.construct == qn and o.instance == inst for o in c.obs):
+                elif used_rev[(qn, _alpha(inst))] < len(_REVIEWED_N.get((qn, _alpha(inst)), [])):
+                    used_rev[(qn, _alpha(inst))] += 1
                     c.exempt("R16-ROUTE", qn, inst, where,
-                             REVIEWED.get((qn, inst)) or REVIEWED[(qn, inst + "#2")])
+                             _REVIEWED_N[(qn, _alpha(inst))][0])
                 else:
                     c.violation(
                         "R16-ROUTE", qn, inst, where,
